@@ -104,6 +104,9 @@ pub fn make_text(ls: &LangSpec, rng: &mut Rng, astral: bool) -> String {
     format!("foo(\n  8,\n){s}"),
     format!("outer(a1, zed(1)){s}\nouter(b2, zed(1)){s}"),
     format!("outer(c3, 0, zed(1)){s}"),
+    // findings inside findings of the same (fixable) rule
+    format!("foo(foo(10)){s}"),
+    format!("foo(1, foo(2, foo(3))){s}"),
     format!("con(no1){s}"),
     format!("con(ok2){s}\ncon(no3){s}"),
     format!("uti(41){s}"),
@@ -162,7 +165,7 @@ fn library(docs: &[Value], lang: SupportLang, text: &str) -> (Vec<Value>, Vec<Va
   let mut meta = vec![];
   for c in &cfgs {
     meta.push(json!({"id": c.id, "lang": format!("{}", c.language), "sev": sev_name(&c.severity), "hasmsg": !c.message.is_empty(),
-                     "note": c.note.clone().unwrap_or_default(), "hasnote": c.note.is_some()}));
+                     "note": c.note.clone().unwrap_or_default(), "hasnote": c.note.is_some(), "hasfix": c.matcher.fixer.is_some()}));
     if c.language != lang {
       continue;
     }
@@ -536,7 +539,15 @@ pub fn drive(vectors: &str, seed: u64, out: &str, thorough: bool) {
       let cases: Vec<FeCase> = (0..per_lang / 3 + 1)
         .map(|k| {
           let astral = k % 3 == 2;
-          FeCase { id: format!("fe-{}-{variant}-{k}", ls.ext), li, docs: docs.clone(), text: make_text(ls, &mut rng, astral), astral }
+          // the first text of every rule set holds a finding inside a finding of the same rule (with a fix in half of the sets)
+          let mut text = make_text(ls, &mut rng, astral);
+          if k == 0 {
+            let cut = text.len() - ls.post.len();
+            if text.is_char_boundary(cut) && text.ends_with(ls.post) {
+              text.insert_str(cut, &format!("foo(0, foo(12)){}\n", ls.semi));
+            }
+          }
+          FeCase { id: format!("fe-{}-{variant}-{k}", ls.ext), li, docs: docs.clone(), text, astral }
         })
         .collect();
       // the CLI runs are the slow part; the LSP exchange is sequential per session
